@@ -106,7 +106,7 @@ func (fr *Frame) execBlock(b *ssa.BasicBlock, st *State, l *Loop) []*Edge {
 		case *ssa.UnOp:
 			fr.env[x] = fr.unop(x, st)
 		case *ssa.Store:
-			fr.storeTo(st, x.Addr, x.Val.Type(), fr.get(x.Val), x.Pos())
+			fr.storeTo(st, x.Addr, x.Val.Type(), fr.get(x.Val), x.Pos(), fr.vc.prog.isInitStore(x))
 		case *ssa.FieldAddr:
 			base := fr.get(x.X)
 			st0 := x.X.Type().Underlying().(*types.Pointer).Elem()
@@ -250,7 +250,7 @@ func (fr *Frame) label(v ssa.Value) string {
 	return v.Name()
 }
 
-func (fr *Frame) storeTo(st *State, addr ssa.Value, t types.Type, v Value, pos token.Pos) {
+func (fr *Frame) storeTo(st *State, addr ssa.Value, t types.Type, v Value, pos token.Pos, initStore bool) {
 	a := fr.get(addr)
 	if lp, ok := a.(LocalPtr); ok {
 		st.Locals[lp.Cell] = setPath(st.Locals[lp.Cell], lp.Path, v)
@@ -259,11 +259,64 @@ func (fr *Frame) storeTo(st *State, addr ssa.Value, t types.Type, v Value, pos t
 	p := a.(*Term)
 	fr.vc.check(st, "nil", "store:"+fr.label(addr), Not(Eq(p, TNil)), pos)
 	fr.frameCheck(st, p, t, fr.label(addr), pos)
-	if messageValueType(t) && messageStore(addr) {
+	if !initStore && messageValueType(t) && messageStore(addr) {
 		// ghost version counter of the XML message objects: serialisations taken at the same version are equal
 		st.Ghost["msgver"] = Add(st.ghost(fr.vc, "msgver"), IntLit(1))
 	}
 	st.store(p, t, v)
+}
+
+// isInitStore: a store that initialises an object this function has just allocated and that nothing else can refer
+// to yet: it follows the Alloc in the same block, its address is a field / element chain rooted at the Alloc, and no
+// instruction in between has used the Alloc for anything but such address computations (composite and slice literals).
+// Such stores cannot change the content of any message that exists already; linking the object into one is a store
+// of its own.
+func (p *Program) isInitStore(s *ssa.Store) bool {
+	if p.initStores == nil {
+		p.initStores = map[*ssa.Store]bool{}
+		p.initDone = map[*ssa.Function]bool{}
+	}
+	f := s.Parent()
+	if !p.initDone[f] {
+		p.initDone[f] = true
+		for _, b := range f.Blocks {
+			for i, ins := range b.Instrs {
+				a, ok := ins.(*ssa.Alloc)
+				if !ok {
+					continue
+				}
+				derived := map[ssa.Value]bool{a: true}
+			scan:
+				for _, nx := range b.Instrs[i+1:] {
+					switch x := nx.(type) {
+					case *ssa.FieldAddr:
+						if derived[x.X] {
+							derived[x] = true
+						}
+					case *ssa.IndexAddr:
+						if derived[x.X] {
+							derived[x] = true
+						}
+					case *ssa.Store:
+						if derived[x.Val] {
+							break scan // the object escapes
+						}
+						if derived[x.Addr] {
+							p.initStores[x] = true
+						}
+					case *ssa.DebugRef:
+					default:
+						for _, op := range nx.Operands(nil) {
+							if *op != nil && derived[*op] {
+								break scan
+							}
+						}
+					}
+				}
+			}
+		}
+	}
+	return p.initStores[s]
 }
 
 // messageValueType: can a value of type t be (part of) the content of an XML message struct? Those hold strings,
